@@ -71,7 +71,7 @@ func runC08(c *mon.Ctx) {
 		r := c.Rng("streams", i)
 		var s *gen.Stream
 		for {
-			m := gen.RandomModel(r, gen.ModelOpts{MaxPES: 2, MaxPMT: 2, MaxSI: 2, MaxUnits: 3, RichAF: true})
+			m := gen.RandomModel(r, gen.ModelOpts{MaxPES: 2, MaxPMT: 2, MaxSI: 2, MaxUnits: 3, RichAF: true, Scrambled: i%4 == 1, SharedPMTPID: i%4 == 2})
 			s = m.Build(r)
 			if len(s.Packets) < 3 {
 				continue
